@@ -1,5 +1,54 @@
 (* C12 — a local server sees calls in order, within its concurrency cap, until shutdown.
-   Statements only; each is closed by [exact] of a lemma proved in coq/Server/*Proofs.v. *)
-From CV Require Import Server.Server Server.ServerProofs.
+   Statements only; each is closed by [exact] of a lemma proved in coq/Server/*.v.
+   All theorems quantify over every parameter record P (MaxConcurrentCalls, AnswerQueueSize,
+   every set of direct and pipelined calls and every caller order) and every reachable
+   configuration, i.e. every schedule of the threads of coq/Server/Server.v. *)
+From CV Require Import Server.Server Server.ServerProofs Server.ServerSteps Server.ServerStart Server.ServerTheorems.
 From Coq Require Import List Arith Bool.
 Import ListNotations.
+
+(* reachability is closed under running any schedule *)
+Theorem C12_run_reachable : forall P s c, reachable P c -> reachable P (run P c s).
+Proof. exact run_reachable. Qed.
+Print Assumptions C12_run_reachable.
+
+(* running <= MaxConcurrentCalls: any set of distinct calls holding a slot (from the start of
+   m.Impl until the slot is freed after Return) has at most p_max elements *)
+Theorem C12_running_le_max : forall P c, reachable P c ->
+  forall l, NoDup l -> (forall x, In x l -> holds_slot (ipc c x) = true) -> length l <= p_max P.
+Proof. exact running_le_max_lemma. Qed.
+Print Assumptions C12_running_le_max.
+
+(* gate: the step that starts the implementation of call j happens in a state where every
+   other started implementation has acknowledged or returned; it is a step of j's own start
+   goroutine and srv.drain is nil *)
+Theorem C12_gate : forall P c t c' j, reachable P c -> step P c t = Some c' ->
+  ipc c j = INone -> ipc c' j <> INone -> forall i, i <> j -> ipc c' i <> IRun.
+Proof. exact gate_lemma. Qed.
+Print Assumptions C12_gate.
+
+Theorem C12_gate_unique_unacked : forall P c, reachable P c ->
+  forall i j, ipc c i = IRun -> ipc c j = IRun -> i = j.
+Proof. exact unacked_unique. Qed.
+Print Assumptions C12_gate_unique_unacked.
+
+(* shutdown_drains *)
+Theorem C12_shutdown_once : forall P c, reachable P c ->
+  shcount c <= 1 /\ (shpc c = ShDone -> shcount c = 1).
+Proof. exact shutdown_once_lemma. Qed.
+Print Assumptions C12_shutdown_once.
+
+Theorem C12_shutdown_after_calls : forall P c, reachable P c ->
+  (shpc c = ShUser \/ shpc c = ShDone) -> forall x, holds_slot (ipc c x) = false.
+Proof. exact shutdown_after_calls_lemma. Qed.
+Print Assumptions C12_shutdown_after_calls.
+
+Theorem C12_no_start_after_shutdown : forall P c t c' j, reachable P c -> step P c t = Some c' ->
+  shpc c <> ShInit -> ipc c j = INone -> ipc c' j = INone.
+Proof. exact no_start_after_shutdown_lemma. Qed.
+Print Assumptions C12_no_start_after_shutdown.
+
+Theorem C12_shutdown_cancels : forall P c c', reachable P c -> step P c TShutdown = Some c' ->
+  shpc c = ShInit -> forall x, holds_slot (ipc c x) = true -> icanc c' x = true.
+Proof. exact shutdown_cancels_lemma. Qed.
+Print Assumptions C12_shutdown_cancels.
